@@ -316,7 +316,7 @@ impl C21 {
 impl Workload for C21 {
     fn total(&self) -> u64 { self.n }
     fn rule(&self) -> String {
-        format!("{} generated programs of 1-6 rules from the canonical grammar (float literals and infix operators in bodies included) whose rules parse_rule accepts; K1 = parse_rule per rule + add_rules; K2 = load_kb_from_file on a random legal rendering (line breaks after `:-` `,` `;` `=` at goal level and inside argument lists, indentation, blank lines, several rules on one line, full-line and end-of-line `#` `%` `//` comments outside parentheses and brackets), in every third case into a knowledge base that already holds rules; oracle: the file loads, format_kb(K2) == format_kb(K1) and the Debug form of every predicate's rule vector is equal; non-trivial when the rendering differs from one rule per line; distinct by file text", self.n)
+        format!("{} generated programs of 1-6 rules from the canonical grammar (float literals and infix operators in bodies included) whose rules parse_rule accepts; K1 = parse_rule per rule + add_rules; K2 = load_kb_from_file on a random legal rendering (line breaks after `:-` `,` `;` `=` at goal level and inside argument lists, indentation, blank lines, several rules on one line, every second file written to the same path as the previous one, full-line and end-of-line `#` `%` `//` comments outside parentheses and brackets), in every third case into a knowledge base that already holds rules; oracle: the file loads, format_kb(K2) == format_kb(K1) and the Debug form of every predicate's rule vector is equal; non-trivial when the rendering differs from one rule per line; distinct by file text", self.n)
     }
     fn describe(&mut self, idx: u64) -> String {
         let mut r = Rng::for_case(self.seed, 21, idx);
@@ -351,10 +351,12 @@ impl Workload for C21 {
                 _ => { out.evals = 0; out.verdict = Verdict::Skipped("a rule is not accepted by parse_rule (C19's subject)"); return out; }
             }
         }
-        let path = format!("{}/{}.txt", self.dir, idx);
+        // every second file is written to the same path as the one before it (a source file that is
+        // edited and loaded again, within the same second)
+        let path = if idx % 2 == 0 { format!("{}/program.txt", self.dir) } else { format!("{}/{}.txt", self.dir, idx) };
         if std::fs::write(&path, &text).is_err() { out.verdict = Verdict::Inconclusive("cannot write the source file".into()); return out; }
         let res = guarded(|| load_kb_from_file(&mut k2, &path));
-        std::fs::remove_file(&path).ok();
+        if idx % 2 != 0 { std::fs::remove_file(&path).ok(); }
         let wit = |kind: &str, d: &str| json::obj(&[("kind", json::esc(kind)), ("rules", json::strs(&rules)), ("file", json::esc(&text)), ("detail", json::esc(d))]);
         let sig = |kind: &str| format!("{}|{}", kind, text);
         match res {
